@@ -580,6 +580,87 @@ func RunC04(r *core.Run) {
 		reuseHistory(w, rr, corpus)
 		w.Nontrivial(uint64(idx)*0x9E3779B97F4A7C15 ^ r.Seed)
 	})
+	// C2: small exported helpers that take an enumeration value: every value of the underlying type
+	stE := r.Stage("helpers/enum-arguments", 65536, func(w *core.Worker, idx int64) {
+		v := int(idx)
+		var hl sipsp.HdrLst
+		hl.Hdrs = make([]sipsp.Hdr, 2)
+		guardFn(w, "HdrLst.GetHdr/SetHdr", nil, func() string {
+			hl.GetHdr(sipsp.HdrT(v))
+			h := sipsp.Hdr{Type: sipsp.HdrT(v)}
+			hl.SetHdr(&h)
+			hl.GetHdr(sipsp.HdrT(v))
+			return ""
+		})
+		guardFn(w, "HdrFlags.*", nil, func() string {
+			var f sipsp.HdrFlags
+			t := sipsp.HdrT(v)
+			f.Set(t)
+			set := f.Test(t)
+			if f.Any(t) != set || f.AllSet(t) != set {
+				return fmt.Sprintf("HdrFlags: Set(%d) then Test=%v Any=%v AllSet=%v", v, set, f.Any(t), f.AllSet(t))
+			}
+			f.Clear(t)
+			if f.Test(t) || f.Any(t, t) {
+				return fmt.Sprintf("HdrFlags: Clear(%d) left the flag set", v)
+			}
+			f.Set(t)
+			f.Reset()
+			if f != 0 {
+				return "HdrFlags.Reset left flags"
+			}
+			return ""
+		})
+		guardFn(w, "String()/Error()/Name() of enumeration values", nil, func() string {
+			_ = sipsp.HdrT(v).String()
+			// Error() of the two error types indexes a table without a range check; only values the
+			// library itself defines are in scope (ErrorHdr(200).Error() panics, but no exported
+			// function returns such a value - that is checked by every monitor through errName)
+			if v <= int(sipsp.ErrHdrTooManyVals) {
+				_ = sipsp.ErrorHdr(v).Error()
+				_ = sipsp.ErrorHdr(v).ErrorConv()
+			}
+			_ = sipsp.ErrorHdr(v).ErrorConv()
+			if v <= int(sipsp.ErrURIBug) {
+				_ = sipsp.ErrorURI(v).Error()
+			}
+			_ = sipsp.SIPMethod(v).Name()
+			_ = sipsp.SIPMethod(v).String()
+			_ = sipsp.URIScheme(v).String()
+			sipsp.GetHdrSigId(sipsp.Hdr{Type: sipsp.HdrT(v)})
+			return ""
+		})
+		if v < 64 {
+			guardFn(w, "accessors of empty objects", nil, func() string {
+				var c sipsp.PContacts
+				var p sipsp.PPAIs
+				var pv sipsp.PHdrVals
+				var ul sipsp.URIParamsLst
+				var uh sipsp.URIHdrsLst
+				p.Init()
+				pv.Init(nil)
+				if c.GetContact(v) != nil || p.GetPAI(v) != nil {
+					return "GetContact/GetPAI on an empty list returned a value"
+				}
+				_, _, _, _ = c.VNo(), c.More(), c.Empty(), c.Parsed()
+				_, _, _ = ul.PNo(), ul.More(), ul.Empty()
+				_, _, _ = uh.HNo(), uh.More(), uh.Empty()
+				pv.GetFrom()
+				pv.GetTo()
+				pv.GetCSeq()
+				pv.GetCallID()
+				pv.GetCLen()
+				pv.GetContacts()
+				pv.GetExpires()
+				pv.GetPAIs()
+				pv.MaxExpires()
+				return ""
+			})
+		}
+		w.NontrivialEnum()
+	})
+	stE.Exhaustive = true
+	stE.Space = "every 16-bit value as HdrT / ErrorHdr / ErrorURI / SIPMethod / URIScheme argument of GetHdr, SetHdr, HdrFlags.{Set,Test,Any,AllSet,Clear,Reset}, String/Error/Name, GetHdrSigId; the accessors of empty list objects for indices 0..63"
 	// D2: isolation between objects that used the same caller arrays one after the other: once an
 	// object has been given other arrays (Init), the old ones belong to the caller again
 	r.Stage("isolation/recycled-arrays", r.Pick(60000, 3000000), func(w *core.Worker, idx int64) {
